@@ -18,6 +18,8 @@ NAME_POOL = [
 HESSIAN_KINDS = [
     'negdef', 'negdef', 'negdef', 'scaled', 'scaled', 'wellscaled_diag', 'singular_zero_param', 'singular_duplicate',
     'singular_lowrank_int', 'indefinite', 'zero',
+    # regular (negative definite) Hessians whose curvature is small in ABSOLUTE terms: nothing singular about them
+    'tiny_scale', 'tiny_scale', 'small_curvature', 'small_curvature', 'tiny_unit', 'tiny_unit',
 ]
 BHHH_KINDS = ['psd_full', 'psd_full', 'info_equality', 'psd_lowrank', 'psd_scaled']
 
@@ -60,6 +62,23 @@ def _hessian(kind, k, rng):
         a = (a + a.T) / 2
     elif kind == 'zero':
         a = np.zeros((k, k))
+    elif kind == 'tiny_scale':
+        # the whole likelihood is flat in absolute terms (few observations / tiny weights): well conditioned, scale 1e-3..1e-9
+        a = a * 10 ** rng.uniform(-9, -3)
+    elif kind == 'small_curvature':
+        # one or two directions of small curvature (eigenvalues 1e-5..1e-8), the others O(1)
+        w, q = np.linalg.eigh(a)
+        w = rng.uniform(0.3, 3.0, size=k)
+        for j in rng.choice(k, size=min(k, int(rng.integers(1, 3))), replace=False):
+            w[int(j)] = 10 ** rng.uniform(-8, -5)
+        a = (q * w) @ q.T
+        a = (a + a.T) / 2
+    elif kind == 'tiny_unit':
+        # one or two attributes expressed in a tiny unit: their coefficients are huge, their curvature d^2 * O(1)
+        d = np.ones(k)
+        for j in rng.choice(k, size=min(k, int(rng.integers(1, 3))), replace=False):
+            d[int(j)] = 10 ** rng.uniform(-4.2, -2.6)
+        a = a * d[:, None] * d[None, :]
     return -a
 
 
@@ -181,17 +200,24 @@ def build_results(raw: dict):
 # ----------------------------------------------------------------------------
 # real models
 # ----------------------------------------------------------------------------
+REAL_KINDS = ['mnl', 'tiny_unit', 'panel', 'mnl_bounds', 'one_parameter', 'panel', 'unidentified', 'tiny_unit_one_parameter']
+
+
 def make_real(seed: int, i: int) -> dict:
     """Specification of a small multinomial logit (optionally panel, optionally
     with an unidentified constant) with simulated choices."""
     pr = random.Random(f'c08-real-{seed}-{i}')
-    kind = pr.choice(['mnl', 'mnl', 'mnl_bounds', 'panel', 'panel', 'unidentified', 'one_parameter'])
+    # the kinds rotate with the case index so that every kind is exercised in every run
+    kind = REAL_KINDS[(i + seed) % len(REAL_KINDS)]
     n_ind = pr.randint(40, 160)
     t = pr.randint(2, 4) if kind == 'panel' else 1
     return {
         'kind': kind, 'n_ind': n_ind, 'T': t, 'seed': pr.randrange(2 ** 31), 'bootstrap': pr.choice([0, 0, 5, 12]),
         'null': pr.random() < 0.6, 'nalt': 3, 'model_name': f'real_{seed}_{i}',
     }
+
+
+TINY_UNIT = 2.0e-4
 
 
 def real_dataframe(spec: dict):
@@ -205,9 +231,11 @@ def real_dataframe(spec: dict):
     ch = np.argmax(u, axis=1) + 1
     ids = np.repeat(np.arange(100, 100 + spec['n_ind']), spec['T'])
     d = {'pid': ids.astype(float), 'choice': ch.astype(float)}
+    # 'tiny_unit': the cost attribute is expressed in a tiny unit (its coefficient is ~ -0.5 / unit, its curvature ~ unit^2)
+    unit = TINY_UNIT if spec['kind'].startswith('tiny_unit') else 1.0
     for a in range(3):
         d[f'x{a + 1}'] = x[:, a]
-        d[f'c{a + 1}'] = c[:, a]
+        d[f'c{a + 1}'] = c[:, a] * unit
     return pd.DataFrame(d)
 
 
@@ -231,6 +259,8 @@ def build_real(spec: dict, workdir_outputs: bool):
     asc1 = Beta('asc_1', 0, None, None, 0)
     if kind == 'one_parameter':
         v = {a: b_time * Variable(f'x{a}') for a in (1, 2, 3)}
+    elif kind == 'tiny_unit_one_parameter':
+        v = {a: b_cost * Variable(f'c{a}') for a in (1, 2, 3)}
     else:
         v = {
             1: b_time * Variable('x1') + b_cost * Variable('c1') + (asc1 if kind == 'unidentified' else 0),
